@@ -29,5 +29,40 @@ CHECKS = {
    text="Proved for all file names/prefixes/suffixes: each of the six directory filters selects exactly startswith(prefix) and endswith(suffix) and derives the documented id. Conversions, error-rate totals, subsetting, statistics and worker-count invariance bounded.",
    note=_N + " Worker-pool completion orders (schedules) are not decided by this technique."),
 }
-_PENDING = "check under construction in this session (design in DESIGN.md section 3); not yet claimed"
+_PENDING0 = "check under construction in this session (design in DESIGN.md section 3); not yet claimed"
+
+_PENDING = "bounded driver still reports unreviewed failures on the unchanged tree in this session; not claimed until triaged (design in DESIGN.md section 3)"
+
+CHECKS.update({
+ "C03": dict(category="other", technique=_T_S,
+   text="Real _string_matching(return_mask=True) source symbolically executed per shape: the row-minima mask equals the spec for all contents/costs/eos; optimal_completion target sets against a brute-force completion oracle and the OCD loss formula by exhaustive run-time contracts.",
+   note=_N),
+ "C04": dict(category="other", engine="rtc", technique=_T_B,
+   text="beam_search_advance post-condition and BeamSearch.forward (distinctness, stop at first eos, chained score recomputed on the table, order, exhaustiveness, batch = solo, stop rule) with state-threading table language models, exhaustive over V, T, width, eos, flags, batch sizes within the bound.",
+   note=_N + " 'Histories' are reached only through the seeded score tables."),
+ "C05": dict(category="other", engine="rtc", technique=_T_B,
+   text="CTC prefix search against brute-force alignment summation and an independent dict-based prefix-beam recursion (cross-checked against each other): exact / pruned / batch / fusion / single advance step, exhaustive over grid tables within the bound, widths to far beyond the reachable prefixes.",
+   note=_N),
+ "C08": dict(category="other", technique="contract-based deductive verification of spec_augment_draw_parameters (symbolic T, F, lengths, limits and uniform draws; real arithmetic; z3/cvc5) + bounded run-time contracts for masking and warping",
+   text="Proved for all lengths, sizes, limits and draws in [0,1): every drawn width/count/start/centre/shift respects the absolute and proportional limits. Masking exactness, evaluation mode and warp numerics (order, pinned ends, range, finiteness) by exhaustive run-time contracts incl. extreme draws.",
+   note=_N + " Rounding of float32 in the draws is exercised only by the bounded driver."),
+ "C10": dict(category="other", technique=_T_S,
+   text="Real chunk_token_sequences_by_slices source symbolically executed per shape (kept tokens, order, ids, slice-relative boundaries, count) for all contents; slicing policies fixed/ali/ref and the directory command by exhaustive run-time contracts against an independent policy oracle.",
+   note=_N + " Known findings KF-C10-1/7 (boundaries shifted by +start; the unedited test-suite encodes it) are printed, other failures of the same clauses still alarm."),
+ "C11": dict(category="other", technique="contract-based deductive verification: path-or-file dispatch executed symbolically with the recursive call replaced by the function's own contract; token<->transcript time conversion over reals (z3/cvc5) + bounded run-time contracts for the file formats",
+   text="Proved: every path branch forwards every parameter (7 functions; write_textgrid's dropped options are known finding KF-C11-1); transcript->token->transcript preserves ids and recovers times within one frame shift for all times and frame shifts. trn/ctm/TextGrid round trips, path-vs-handle byte identity and worker counts bounded.",
+   note=_N + " Worker completion orders (schedules) are not decided."),
+ "C16": dict(category="other", technique="contract-based deductive verification: real update_for_epoch symbolically executed against a ghost file system; one obligation per (path, cut point) incl. every subset of the clean-up; z3/cvc5 + crash-injection run-time contracts",
+   text="Proved for epoch-unique paths, all histories satisfying the invariants and all settings: after every prefix of the file-system events of every path the last and best recorded epochs are loadable with their own parameters; exact-keep / keep-all re-established; refusal iff the best checkpoint would be overwritten. Formats without the epoch field are known finding KF-C16-2. Whole crash/restart histories on the real file system bounded.",
+   note=_N + " Atomic events, single process death; callee contracts (save = two replaces, append, remove set) assumed and exercised by the run-time driver."),
+ "C18": dict(category="other", engine="rtc", technique=_T_B,
+   text="Mean-variance statistics over every ordered set partition (exact rational oracle), store() conditions, own statistics, delta features against the recursive regression formula for every layout/order/width/pad mode, discounted returns incl. long sequences, and the CLI accumulation.",
+   note=_N + " Known finding KF-C18-2 (|gamma|>1 with tiny rewards overflows a discount factor)."),
+ "C19": dict(category="other", technique="contract-based deductive verification of fixed-cardinality sampling (loop invariant, symbolic vector size) and of threshold(csample(b)) = b for the relaxed Bernoulli (z3) + exhaustive enumeration of sample spaces at run time for values and gradients",
+   text="Proved: simple_random_sampling_without_replacement returns exactly `given` ones below `total` for every size (bernoulli probabilities proved in [0,1]); LogisticBernoulli threshold∘csample is the identity. Unbiasedness of value and gradient (direct, importance sampling, enumeration), relaxations on quadrature nodes, Metropolis-Hastings acceptance, density factorisation, supports: bounded (whole sample spaces enumerated).",
+   note=_N + " Gradients cannot be stated as first-order postconditions over the code; they are bounded only. Known finding KF-C19-1."),
+ "C20": dict(category="other", engine="rtc", technique=_T_B,
+   text="Convexity, blindness to masked positions, permutation consistency, broadcasting vs explicit expansion, negative dims, multi-head composition and bias placement for dot / generalised / concat / multi-headed attention, exhaustive over shapes, dims, masks, permutations and broadcast patterns within the bound with seeded contents.",
+   note=_N),
+})
 NOT_APPLICABLE = {("C%02d" % i): _PENDING for i in range(1, 21) if ("C%02d" % i) not in CHECKS}
